@@ -9,10 +9,16 @@
  *    kill : SIGKILL to every traced task before the call executes (the call is
  *           skipped by the kernel: fatal signal pending at syscall-enter-stop);
  *    int  : SIGINT to the calling thread; the call completes, then the signal is delivered;
- *    none : nothing (dry run, K ignored).
+ *    none : nothing (dry run, K ignored);
+ *    fail:<errno>  : the K-th call is not executed and returns -<errno> to the program (I/O fault injection:
+ *           the system call number is replaced by -1 at the syscall-enter-stop, the return register is
+ *           set at the syscall-exit-stop); every other call runs normally;
+ *    failp:<errno> : the same, and every later call with the same system call number fails too
+ *           (a disk that stays full).
  * The log gets one line per counted call: "<idx> <tid> <nr> <path-or-dash> <arg0> <arg1> <arg2> <arg3>",
  * "RET <idx> <tid> <value>" when the call returns, "ACT kill|int" when the action fires, and a
- * final "EXIT <code>" / "SIGNALED <sig>" line for the initial process.
+ * final "EXIT <code>" / "SIGNALED <sig>" line for the initial process ("ACT fail <errno>" / "INJ <idx>" lines
+ * mark the injected failures).
  * env C19_WIDE=1 also counts read / stat / sigaction entries (finer signal points).
  * No zstd code is linked here.
  */
@@ -33,12 +39,30 @@
 #define MAXT 256
 static pid_t tasks[MAXT];
 static long pend[MAXT];       /* index of the counted call the task is currently inside, or 0 */
+static long inj[MAXT];        /* errno to put into the return register at the exit stop of that call, or 0 */
 static int ntasks = 0;
 
 static int known(pid_t p) { int i; for (i = 0; i < ntasks; i++) if (tasks[i] == p) return 1; return 0; }
-static void add(pid_t p) { if (!known(p) && ntasks < MAXT) { pend[ntasks] = 0; tasks[ntasks++] = p; } }
-static void del(pid_t p) { int i; for (i = 0; i < ntasks; i++) if (tasks[i] == p) { --ntasks; tasks[i] = tasks[ntasks]; pend[i] = pend[ntasks]; return; } }
+static void add(pid_t p) { if (!known(p) && ntasks < MAXT) { pend[ntasks] = 0; inj[ntasks] = 0; tasks[ntasks++] = p; } }
+static void del(pid_t p) { int i; for (i = 0; i < ntasks; i++) if (tasks[i] == p) { --ntasks; tasks[i] = tasks[ntasks]; pend[i] = pend[ntasks]; inj[i] = inj[ntasks]; return; } }
 static long* pendOf(pid_t p) { int i; for (i = 0; i < ntasks; i++) if (tasks[i] == p) return &pend[i]; return NULL; }
+static long* injOf(pid_t p) { int i; for (i = 0; i < ntasks; i++) if (tasks[i] == p) return &inj[i]; return NULL; }
+
+/* make the call the task is about to enter a no-op (x86-64: orig_rax = -1) */
+static int skip_call(pid_t p)
+{
+    struct user_regs_struct r;
+    if (ptrace(PTRACE_GETREGS, p, 0, &r) < 0) return -1;
+    r.orig_rax = (unsigned long long)-1;
+    return (int)ptrace(PTRACE_SETREGS, p, 0, &r);
+}
+static int set_ret(pid_t p, long err)
+{
+    struct user_regs_struct r;
+    if (ptrace(PTRACE_GETREGS, p, 0, &r) < 0) return -1;
+    r.rax = (unsigned long long)(-err);
+    return (int)ptrace(PTRACE_SETREGS, p, 0, &r);
+}
 
 static int g_wide = 0;   /* env C19_WIDE=1: also count read / stat / sigaction entries (more signal points) */
 
@@ -57,9 +81,9 @@ static int watched(long nr, int* pathArg)
         }
     }
     switch (nr) {
-    case SYS_open: case SYS_creat: case SYS_unlink: case SYS_chmod: case SYS_rename: case SYS_truncate:
+    case SYS_open: case SYS_creat: case SYS_unlink: case SYS_chmod: case SYS_rename: case SYS_truncate: case SYS_mkdir: case SYS_rmdir:
         *pathArg = 0; return 1;
-    case SYS_openat: case SYS_unlinkat: case SYS_utimensat: case SYS_renameat: case SYS_renameat2: case SYS_fchmodat:
+    case SYS_openat: case SYS_unlinkat: case SYS_utimensat: case SYS_renameat: case SYS_renameat2: case SYS_fchmodat: case SYS_mkdirat:
         *pathArg = 1; return 1;
     case SYS_close: case SYS_write: case SYS_pwrite64: case SYS_writev: case SYS_lseek: case SYS_fchmod: case SYS_fchown:
     case SYS_ftruncate: case SYS_exit_group: case SYS_fallocate:
@@ -97,11 +121,15 @@ int main(int argc, char** argv)
     long count = 0;
     int acted = 0;
     int status = 0, haveStatus = 0;
+    long failErr = 0, failNr = -1;
+    int persistent = 0;
 
-    if (argc < 6 || strcmp(argv[4], "--")) { fprintf(stderr, "usage: c19_killer K kill|int|none log -- cmd...\n"); return 2; }
+    if (argc < 6 || strcmp(argv[4], "--")) { fprintf(stderr, "usage: c19_killer K kill|int|none|fail:E|failp:E log -- cmd...\n"); return 2; }
     K = atol(argv[1]);
     g_wide = getenv("C19_WIDE") != NULL && getenv("C19_WIDE")[0] == '1';
     action = argv[2];
+    if (!strncmp(action, "fail:", 5)) failErr = atol(action + 5);
+    if (!strncmp(action, "failp:", 6)) { failErr = atol(action + 6); persistent = 1; }
     lg = fopen(argv[3], "we");
     if (!lg) { perror("log"); return 2; }
 
@@ -147,6 +175,12 @@ int main(int argc, char** argv)
                 long got = ptrace(PTRACE_GET_SYSCALL_INFO, p, sizeof(info), &info);
                 if (got > 0 && info.op == PTRACE_SYSCALL_INFO_EXIT) {
                     long* pe = pendOf(p);
+                    long* ie = injOf(p);
+                    if (ie && *ie) {
+                        set_ret(p, *ie);
+                        info.exit.rval = -*ie;
+                        *ie = 0;
+                    }
                     if (pe && *pe) {
                         fprintf(lg, "RET %ld %d %lld\n", *pe, (int)p, (long long)info.exit.rval);
                         fflush(lg);
@@ -169,9 +203,20 @@ int main(int argc, char** argv)
                                 (unsigned long long)info.entry.args[2], (unsigned long long)info.entry.args[3]);
                         fflush(lg);
                         { long* pe = pendOf(p); if (pe) *pe = count; }
+                        if (acted && failErr && persistent && nr == failNr && nr != SYS_exit_group) {
+                            long* ie = injOf(p);
+                            if (ie && skip_call(p) == 0) { *ie = failErr; fprintf(lg, "INJ %ld\n", count); fflush(lg); }
+                        }
                         if (!acted && K > 0 && count == K) {
                             acted = 1;
-                            if (!strcmp(action, "kill")) {
+                            if (failErr) {
+                                long* ie = injOf(p);
+                                failNr = nr;
+                                if (nr != SYS_exit_group && ie && skip_call(p) == 0) {
+                                    *ie = failErr;
+                                    fprintf(lg, "ACT fail %ld\n", failErr); fflush(lg);
+                                }
+                            } else if (!strcmp(action, "kill")) {
                                 int i;
                                 kill(child, SIGKILL);
                                 for (i = 0; i < ntasks; i++) kill(tasks[i], SIGKILL);
